@@ -565,5 +565,123 @@ Section Ord.
         intros Hon. split; auto. apply nle_lt_nn in Hle; auto. now apply lt_le_nn.
     - destruct F as (_ & _ & -> & _). eexists; split; [reflexivity|]. split; [apply noworse_refl|]. intros s0 E0; discriminate.
   Qed.
+
+  (* ---------------------------------------------------------------- C04: no offered value is ever lost *)
+  (* v is covered: the final answer can only be at least as good as v *)
+  Definition covers (st : model_state) (v : T) : Prop :=
+    noworse (objv st (kopt st)) v \/ exists s, objsave st = Some s /\ noworse s v.
+  Definition inc_saved (st : model_state) : Prop := exists s, objsave st = Some s /\ noworse s (objv st (kopt st)).
+  (* admissible updates for a deterministic run without averaging: no re-sampling; the incumbent's own slot is
+     overwritten only after the incumbent was saved, and then with a non-NaN value *)
+  Definition admissible (st : model_state) (o : op) : Prop :=
+    match o with
+    | OSample _ _ => False
+    | OChange k x r en => k <> kopt st \/ (inc_saved st /\ isnan (obj_of st r (vmap2 add (xbase st) x)) = false)
+    | _ => True
+    end.
+  (* the value an update offers *)
+  Definition offered (st : model_state) (o : op) : option T :=
+    match o with
+    | OChange k x r en => Some (obj_of st r (vmap2 add (xbase st) x))
+    | OAdd x r en => Some (obj_of st r (vmap2 add (xbase st) x))
+    | OSave x r ns en ab => Some (obj_of st r (if ab then x else s_as_absolute_coordinates st x))
+    | _ => None
+    end.
+  Definition IncOK (st : model_state) : Prop := isnan (objv st (kopt st)) = false.
+
+  Lemma covers_final st v st' x r o j ns en je : covers st v -> s_get_final_results st = Ok (st', (x, r, o, j, ns, en, je)) ->
+    exists res, o = Some res /\ noworse res v.
+  Proof.
+    intros Hc Hr. destruct (final_results_best _ _ _ _ _ _ _ _ _ Hr) as (res & -> & Hinc & Hsav).
+    exists res. split; auto. destruct Hc as [Hc|(s & Es & Hc)].
+    - eapply noworse_trans; eauto.
+    - eapply noworse_trans; [apply Hsav; exact Es|exact Hc].
+  Qed.
+
+  Theorem step_covers st o st' v : wf st -> IncOK st -> admissible st o -> step st o = Ok st' ->
+    IncOK st' /\ (covers st v -> covers st' v) /\ (forall w, offered st o = Some w -> covers st' w).
+  Proof.
+    intros W HI Ha Hs. unfold IncOK, covers in *. step_cases Hs.
+    - (* change_point *)
+      destruct (change_point_slots _ _ _ _ _ _ _ W Eo) as (W' & Hkk & Hoth & _).
+      pose proof (cp_fields _ _ _ _ _ _ _ W Eo) as F. cbv zeta in F.
+      destruct F as (Hkr & Hsf & _ & Hgrow & _ & _ & Hov & _ & _ & _ & _ & _ & Hos & _ & _ & _ & _ & Hko).
+      set (w := obj_of st r (vmap2 add (xbase st) x)) in *.
+      assert (Hvk: objv m k = w) by (rewrite <- sl_obj_objv, Hkk; reflexivity).
+      assert (Hother: forall j, 0 <= j -> j <> k -> objv m j = objv st j) by (intros; apply slot_objv; auto).
+      cbn [andb] in Hko. fold (objv m (kopt st)) in Hko. cbn [admissible] in Ha. fold w in Ha.
+      destruct (Z.eq_dec k (kopt st)) as [Hkeq|Hkne].
+      + destruct Ha as [Ha|[(s & Es & Hs) Hwn]]; [congruence|].
+        subst k. assert (Hko': kopt m = kopt st) by (rewrite Hko; destruct (lt _ _); reflexivity).
+        rewrite Hko', Hvk. split; [exact Hwn|]. split.
+        * intros [Hc|(s0 & Es0 & Hc)]; right; exists s; rewrite Hos; split; auto.
+          -- eapply noworse_trans; eauto.
+          -- rewrite Es in Es0. injection Es0 as <-. exact Hc.
+        * intros w0 Hw0. cbn [offered] in Hw0. injection Hw0 as <-. left. apply noworse_refl.
+      + rewrite (Hother (kopt st)) in Hko by (destruct W; lia).
+        destruct (lt w (objv st (kopt st))) eqn:Elt; rewrite Hko.
+        * destruct (lt_true_nonnan _ _ Elt) as [Hwn _]. rewrite Hvk. split; [exact Hwn|]. split.
+          -- intros [Hc|(s0 & Es0 & Hc)]; [left|right; exists s0; rewrite Hos; auto].
+             eapply noworse_trans; [|exact Hc]. intros _. split; auto. now apply lt_le_nn.
+          -- intros w0 Hw0. cbn [offered] in Hw0. injection Hw0 as <-. left. apply noworse_refl.
+        * rewrite Hother by (destruct W; lia). split; [exact HI|]. split.
+          -- intros [Hc|(s0 & Es0 & Hc)]; [left; exact Hc|right; exists s0; rewrite Hos; auto].
+          -- intros w0 Hw0. cbn [offered] in Hw0. injection Hw0 as <-. left.
+             intros Hwn. split; auto. apply nlt_le_nn; auto.
+    - (* swap *)
+      apply andb_true_iff in Eg as [G1 G2]. apply in_range_spec in G1, G2.
+      destruct (swap_points_slots _ _ _ _ W G1 G2 Eo) as (W' & Hsf & _ & Hsl & Hko & _ & _ & _ & Hos).
+      assert (E: objv m (kopt m) = objv st (kopt st)) by (rewrite (slot_objv _ _ _ _ (Hsl (kopt m) ltac:(destruct W'; lia))), <- Hko; reflexivity).
+      rewrite E. split; [exact HI|]. split; [|intros w0 Hw0; discriminate].
+      intros [Hc|(s0 & Es0 & Hc)]; [left; exact Hc|right; exists s0; rewrite Hos; auto].
+    - destruct Ha.
+    - (* add_new_point *)
+      apply Z.eqb_eq in Eg.
+      destruct (add_new_point_slots _ _ _ _ _ W Eg Eo) as (W' & Hsf & _ & Hnew & Hold & Hko & _ & _ & _ & Hos).
+      set (w := obj_of st r (vmap2 add (xbase st) x)) in *. fold (objv st (kopt st)) in Hko.
+      assert (Hvk: objv m (npt_so_far st) = w) by (rewrite <- sl_obj_objv, Hnew; reflexivity).
+      assert (Hother: forall j, 0 <= j < npt_so_far st -> objv m j = objv st j) by (intros; apply slot_objv; auto).
+      destruct (lt w (objv st (kopt st))) eqn:Elt; rewrite Hko.
+      + destruct (lt_true_nonnan _ _ Elt) as [Hwn _]. rewrite Hvk. split; [exact Hwn|]. split.
+        * intros [Hc|(s0 & Es0 & Hc)]; [left|right; exists s0; rewrite Hos; auto].
+          eapply noworse_trans; [|exact Hc]. intros _. split; auto. now apply lt_le_nn.
+        * intros w0 Hw0. cbn [offered] in Hw0. injection Hw0 as <-. left. apply noworse_refl.
+      + rewrite Hother by (destruct W; lia). split; [exact HI|]. split.
+        * intros [Hc|(s0 & Es0 & Hc)]; [left; exact Hc|right; exists s0; rewrite Hos; auto].
+        * intros w0 Hw0. cbn [offered] in Hw0. injection Hw0 as <-. left.
+          intros Hwn. split; auto. apply nlt_le_nn; auto.
+    - (* shift *)
+      pose proof (shift_base_book _ _ _ Eo) as B. unfold same_book in B.
+      destruct B as (_ & Hov & _ & _ & Hk & _ & _ & _ & _ & Hos & _). unfold covers, objv in *. rewrite Hov, Hk, Hos.
+      split; [exact HI|]. split; auto. intros w0 Hw0; discriminate.
+    - (* save *)
+      pose proof (save_point_best _ _ _ _ _ _ _ _ Eo) as (s' & Es' & Hnew & Hold).
+      pose proof (save_point_fields _ _ _ _ _ _ _ _ Eo) as F. cbv zeta in F.
+      destruct F as (_ & _ & _ & _ & Hov & _ & _ & _ & Hk & _). unfold covers, objv in *. rewrite Hov, Hk.
+      split; [exact HI|]. split.
+      + intros [Hc|(s0 & Es0 & Hc)]; [left; exact Hc|right; exists s'; split; auto]. eapply noworse_trans; [apply Hold; exact Es0|exact Hc].
+      + intros w0 Hw0. cbn [offered] in Hw0. injection Hw0 as <-. right. exists s'. split; auto.
+  Qed.
+
+  (* every value offered along any admissible history stays covered until the end *)
+  Fixpoint run_admissible (ops : list op) (st : model_state) : Prop :=
+    match ops with [] => True | o :: ops' => admissible st o /\ match step st o with Ok st1 => run_admissible ops' st1 | Err _ => True end end.
+  Fixpoint offered_along (ops : list op) (st : model_state) : list T :=
+    match ops with [] => [] | o :: ops' =>
+      (match offered st o with Some w => [w] | None => [] end) ++ match step st o with Ok st1 => offered_along ops' st1 | Err _ => [] end end.
+  Theorem run_covers ops : forall st st', wf st -> IncOK st -> run_admissible ops st -> run ops st = Ok st' ->
+    IncOK st' /\ (forall v, covers st v -> covers st' v) /\ (forall w, In w (offered_along ops st) -> covers st' w).
+  Proof.
+    induction ops as [|o ops IH]; intros st st' W HI HA Hr; cbn [run] in Hr.
+    - injection Hr as <-. cbn. repeat split; auto. intros w [].
+    - unfold bind in Hr. cbn [run_admissible] in HA. destruct HA as [Ha HA]. cbn [offered_along].
+      destruct (step st o) as [st1|] eqn:E; [|discriminate].
+      pose proof (step_wf _ _ _ W E) as W1.
+      destruct (step_covers st o st1 (objv st (kopt st)) W HI Ha E) as (HI1 & _ & Hoff).
+      destruct (IH st1 st' W1 HI1 HA Hr) as (HI' & Hkeep & Hnew). split; [exact HI'|]. split.
+      + intros v Hv. apply Hkeep. destruct (step_covers st o st1 v W HI Ha E) as (_ & Hk & _). auto.
+      + intros w Hw. apply in_app_or in Hw as [Hw|Hw]; [|apply Hnew; exact Hw].
+        destruct (offered st o) as [w0|] eqn:Eof; [|destruct Hw]. destruct Hw as [<-|[]]. apply Hkeep. apply Hoff. reflexivity.
+  Qed.
 End Ord.
 End Book.
